@@ -18,7 +18,18 @@
 //!                  /Size above every object number and equal to the rows, every stream /Length at its
 //!                  `endstream`, every reference (trailer included) to an in-use object of that generation,
 //!                  no object outside the table, nothing but objects between header and startxref
-//!   c10.witness    deterministic documents: 0 pages, 1 page, 300 pages (two-byte offsets → /W), info
+//!   c10.witness    deterministic documents: 0 pages, 1 page, 255 / 256 / 257 / 300 pages, info, unusual rotations
+//!   (steered)      documents padded (info title, or a string entry of the first page) so that the
+//!                  cross-reference stream — the largest offset of the table, hence the value that decides
+//!                  /W — starts exactly at 255, 256, 257, 65535, 65536, 65537 (thorough: every offset of a
+//!                  window around 256 and 65536, and 2^24 − 1, 2^24, 2^24 + 1); all three oracles and the
+//!                  correspondence run on them
+//! More correspondence (the width decision itself, `byte_len`, is private: it is reached through
+//! `XRefTable::write_stream`)
+//!   c10.bytelen    tables whose largest first / second field is n: every n of an initial segment, every
+//!                  256^k − 2 … 256^k + 2 and random n, against the model's `byteLen`
+//!   c10.table      tables of free / in-use / compressed / undefined entries with fields at the width
+//!                  boundaries: /W and every byte of the rows against the model's `widths` / `rowBytes`
 
 use crate::c09::pdfread::*;
 use crate::c09::{from_prim, measure, to_dict, to_prim, Appended};
@@ -30,7 +41,7 @@ use pdf::content::{Color, LineCap, LineJoin, Matrix, Op, Point, Rgb, ViewRect, W
 use pdf::file::FileOptions;
 use pdf::font::{Font, FontType};
 use pdf::object::{GraphicsStateParameters, InfoDict, Lazy, NoResolve, Object, Rectangle, Resolve, Resources, Trapped};
-use pdf::primitive::{Name, PdfString, Primitive};
+use pdf::primitive::{Date, Name, PdfString, Primitive, TimeRel};
 use serde_json::{json, Value};
 use std::collections::{BTreeMap, BTreeSet};
 use std::panic::{catch_unwind, AssertUnwindSafe};
@@ -60,10 +71,13 @@ struct GenInfo {
     creator: Option<Vec<u8>>,
     producer: Option<Vec<u8>>,
     trapped: Option<u8>,
+    /// (year, month, day, hour, minute, second, rel 0 earlier / 1 later / 2 universal, tz hour, tz minute)
+    created: Option<[u16; 9]>,
+    modified: Option<[u16; 9]>,
 }
 
 fn num(rng: &mut Rng) -> f32 {
-    // fractions that are exact in binary and small integers: printing and reading reals is C03 / C04
+    // operands of operations: ordinary values, exact in binary (how operands are printed and read is C08)
     let whole = rng.range(-300, 900) as f32;
     match rng.below(4) {
         0 => whole,
@@ -77,24 +91,99 @@ fn unit(rng: &mut Rng) -> f32 {
     (rng.below(9) as f32) / 8.0
 }
 
+/// a coordinate of a page box: ordinary, and every unusual-but-legal kind — negative, zero, minus zero,
+/// fractions that are not exact in binary, tiny, large, beyond the i32 range
+fn coord(rng: &mut Rng) -> f32 {
+    match rng.below(16) {
+        0..=5 => (rng.below(2000) as f32) / 2.0,
+        6 => -((rng.below(2000) as f32) / 4.0),
+        7 => 0.0,
+        8 => -0.0,
+        9 => (rng.below(100000) as f32) / 1000.0,
+        10 => *rng.pick(&[0.1f32, 0.001, 1.5e-5, 3.3333333, 0.7, 1e-7]),
+        11 => *rng.pick(&[14400.0f32, 1e6, 8388608.5, 16777216.0, 16777217.0, 1e9, 4294967296.0, 1e12, -1e12]),
+        12 => *rng.pick(&[255.0f32, 256.0, 257.0, 65535.0, 65536.0, 2147483647.0, -2147483648.0, 2147483648.0]),
+        13 => -(rng.below(100000) as f32) / 7.0,
+        14 => f32::from_bits(0x3f800000 + rng.below(0x0a000000) as u32),
+        _ => 612.0,
+    }
+}
+
+/// a box: usually lower-left / upper-right, sometimes reversed, degenerate or far away
 fn rect(rng: &mut Rng) -> [f32; 4] {
+    match rng.below(8) {
+        0..=3 => {
+            let l = (rng.below(100) as f32) / 2.0;
+            let b = (rng.below(100) as f32) / 2.0;
+            [l, b, l + 100.0 + rng.below(500) as f32, b + 100.0 + (rng.below(700) as f32) / 4.0]
+        }
+        4 => {
+            // reversed corners
+            let r = rect_plain(rng);
+            [r[2], r[3], r[0], r[1]]
+        }
+        5 => {
+            let x = coord(rng);
+            [x, x, x, x]
+        }
+        _ => [coord(rng), coord(rng), coord(rng), coord(rng)],
+    }
+}
+
+fn rect_plain(rng: &mut Rng) -> [f32; 4] {
     let l = (rng.below(100) as f32) / 2.0;
     let b = (rng.below(100) as f32) / 2.0;
     [l, b, l + 100.0 + rng.below(500) as f32, b + 100.0 + (rng.below(700) as f32) / 4.0]
 }
 
+/// /Rotate: the four ordinary values, legal multiples of 90 outside 0..360 (negative, ≥ 360, huge), and
+/// integers that are no multiple of 90 at all — the builder has to write whatever it is given
+fn rotation(rng: &mut Rng) -> i32 {
+    match rng.below(10) {
+        0..=3 => *rng.pick(&[0, 90, 180, 270]),
+        4..=6 => *rng.pick(&[-90, -180, -270, -360, -450, -720, 360, 450, 540, 630, 720, 810, 3600, 36090, 2147483610, -2147483610]),
+        7 => 90 * rng.range(-1000, 1000) as i32,
+        8 => *rng.pick(&[1, -1, 45, 89, 91, 359, 361, i32::MAX, i32::MIN + 1, i32::MIN]),
+        _ => rng.next() as i32,
+    }
+}
+
 fn text(rng: &mut Rng) -> Vec<u8> {
-    let n = 1 + rng.usize(12);
-    (0..n).map(|_| *rng.pick(b"abcdefgh XYZ0123456789.,-")).collect()
+    match rng.below(8) {
+        0 => vec![],
+        1..=4 => {
+            let n = 1 + rng.usize(12);
+            (0..n).map(|_| *rng.pick(b"abcdefgh XYZ0123456789.,-")).collect()
+        }
+        5 => {
+            // delimiters, escapes, line ends, high bytes
+            let n = 1 + rng.usize(10);
+            (0..n).map(|_| *rng.pick(b"()\\\r\n\t <>[]/%#\x00\x7f\x80\xe9\xfe\xff")).collect()
+        }
+        6 => {
+            let n = 1 + rng.usize(20);
+            rng.bytes(n)
+        }
+        _ => {
+            let n = 200 + rng.usize(2000);
+            (0..n).map(|_| *rng.pick(b"long text 0123456789")).collect()
+        }
+    }
 }
 
 fn name(rng: &mut Rng, prefix: &str) -> String {
-    format!("{}{}", prefix, rng.below(4))
+    match rng.below(8) {
+        0 => format!("{} {}", prefix, rng.below(4)),
+        1 => format!("{}#{}/{}", prefix, rng.below(4), rng.below(3)),
+        2 => format!("{}\u{e9}({})", prefix, rng.below(4)),
+        _ => format!("{}{}", prefix, rng.below(4)),
+    }
 }
 
 /// simple operations only: how every operator is written and read back is C08
 fn gen_ops(rng: &mut Rng, fonts: &[(String, String)], gs: &[(String, f32, Option<f32>, Option<bool>)]) -> Vec<Op> {
-    let n = rng.usize(9);
+    // mostly short; sometimes none, sometimes very long (the stream /Length grows digits, offsets move)
+    let n = match rng.below(30) { 0..=2 => 0, 3 => 300 + rng.usize(2500), _ => rng.usize(9) };
     let mut ops = vec![];
     for _ in 0..n {
         match rng.below(14) {
@@ -136,33 +225,37 @@ fn gen_ops(rng: &mut Rng, fonts: &[(String, String)], gs: &[(String, f32, Option
 }
 
 fn extra_val(rng: &mut Rng) -> PVal {
-    match rng.below(6) {
+    match rng.below(9) {
         0 => PVal::Int(rng.range(-9, 99999)),
-        1 => PVal::Real(format!("{}.5", rng.below(50))),
-        2 => PVal::Name((*rng.pick(&["DeviceRGB", "Tag", "A.b-c_d"])).to_string()),
-        3 => PVal::Str(text(rng)),
-        4 => PVal::Arr(vec![PVal::Int(rng.range(0, 9)), PVal::Bool(rng.chance(1, 2)), PVal::Null]),
-        _ => PVal::Dict(vec![("K".into(), PVal::Int(rng.range(0, 9))), ("N".into(), PVal::Name("x".into()))]),
+        1 => PVal::Int(*rng.pick(&[0i64, -1, 255, 256, 65535, 65536, 2147483647, -2147483648])),
+        2 => PVal::Real(format!("{}", coord(rng))),
+        3 => PVal::Name((*rng.pick(&["DeviceRGB", "Tag", "A.b-c_d", "with space", "h#sh", "sl/ash", "(paren)", "\u{e9}t\u{e9}", ""])).to_string()),
+        4 => PVal::Str(text(rng)),
+        5 => PVal::Arr(vec![PVal::Int(rng.range(0, 9)), PVal::Bool(rng.chance(1, 2)), PVal::Null]),
+        6 => PVal::Arr((0..rng.usize(4)).map(|_| PVal::Real(format!("{}", coord(rng)))).collect()),
+        7 => PVal::Bool(rng.chance(1, 2)),
+        _ => PVal::Dict(vec![("K".into(), PVal::Int(rng.range(0, 9))), ("N".into(), PVal::Name("x".into())), (name(rng, "k"), PVal::Str(text(rng)))]),
     }
 }
 
 fn gen_page(rng: &mut Rng) -> GenPage {
+    let many = rng.chance(1, 25);
     let mut fonts = vec![];
-    for _ in 0..rng.usize(3) {
-        let n = name(rng, "F");
+    for k in 0..if many { 8 + rng.usize(8) } else { rng.usize(3) } {
+        let n = if many { format!("F{}", k) } else { name(rng, "F") };
         if !fonts.iter().any(|f: &(String, String)| f.0 == n) {
             fonts.push((n, (*rng.pick(&["Helvetica", "Times-Roman", "Courier-Bold"])).to_string()));
         }
     }
     let mut gs = vec![];
-    for _ in 0..rng.usize(3) {
-        let n = name(rng, "GS");
+    for k in 0..if many { 8 + rng.usize(8) } else { rng.usize(3) } {
+        let n = if many { format!("GS{}", k) } else { name(rng, "GS") };
         if !gs.iter().any(|g: &(String, f32, Option<f32>, Option<bool>)| g.0 == n) {
             gs.push((n, 0.5 + rng.below(20) as f32 / 4.0, if rng.chance(1, 2) { Some(unit(rng)) } else { None }, if rng.chance(1, 3) { Some(rng.chance(1, 2)) } else { None }));
         }
     }
     let mut other = vec![];
-    for k in ["UserUnit", "Tabs", "PieceInfo", "StructParents", "XCustom"] {
+    for k in ["UserUnit", "Tabs", "PieceInfo", "StructParents", "XCustom", "X Custom #2", "\u{fc}ber"] {
         if rng.chance(1, 4) {
             other.push((k.to_string(), extra_val(rng)));
         }
@@ -173,7 +266,7 @@ fn gen_page(rng: &mut Rng) -> GenPage {
         media: if rng.chance(4, 5) { Some(rect(rng)) } else { None },
         crop: if rng.chance(1, 3) { Some(rect(rng)) } else { None },
         trim: if rng.chance(1, 4) { Some(rect(rng)) } else { None },
-        rotate: *rng.pick(&[0, 0, 90, 180, 270, -90]),
+        rotate: rotation(rng),
         other,
         metadata: opt(rng),
         lgi: opt(rng),
@@ -183,9 +276,39 @@ fn gen_page(rng: &mut Rng) -> GenPage {
     }
 }
 
+fn gen_date(rng: &mut Rng) -> [u16; 9] {
+    let rel = rng.below(3) as u16;
+    let (th, tm) = if rel == 2 { (0, 0) } else { (rng.below(15) as u16, *rng.pick(&[0u16, 30, 45])) };
+    [*rng.pick(&[1970u16, 1999, 2000, 2024, 9999, 1]), 1 + rng.below(12) as u16, 1 + rng.below(28) as u16, rng.below(24) as u16, rng.below(60) as u16, rng.below(60) as u16, rel, th, tm]
+}
+
 fn gen_info(rng: &mut Rng) -> GenInfo {
     let s = |rng: &mut Rng| if rng.chance(1, 2) { Some(text(rng)) } else { None };
-    GenInfo { title: s(rng), author: s(rng), subject: s(rng), keywords: s(rng), creator: s(rng), producer: s(rng), trapped: if rng.chance(1, 3) { Some(rng.below(3) as u8) } else { None } }
+    GenInfo {
+        title: s(rng),
+        author: s(rng),
+        subject: s(rng),
+        keywords: s(rng),
+        creator: s(rng),
+        producer: s(rng),
+        trapped: if rng.chance(1, 3) { Some(rng.below(3) as u8) } else { None },
+        created: if rng.chance(1, 3) { Some(gen_date(rng)) } else { None },
+        modified: if rng.chance(1, 4) { Some(gen_date(rng)) } else { None },
+    }
+}
+
+fn date_of(d: &[u16; 9]) -> Date {
+    Date {
+        year: d[0],
+        month: d[1] as u8,
+        day: d[2] as u8,
+        hour: d[3] as u8,
+        minute: d[4] as u8,
+        second: d[5] as u8,
+        rel: match d[6] { 0 => TimeRel::Earlier, 1 => TimeRel::Later, _ => TimeRel::Universal },
+        tz_hour: d[7] as u8,
+        tz_minute: d[8] as u8,
+    }
 }
 
 fn rectangle(r: [f32; 4]) -> Rectangle {
@@ -245,7 +368,8 @@ fn info_dict(i: &GenInfo) -> InfoDict {
         creator: s(&i.creator),
         producer: s(&i.producer),
         trapped: i.trapped.map(|t| match t { 0 => Trapped::True, 1 => Trapped::False, _ => Trapped::Unknown }),
-        ..Default::default()
+        creation_date: i.created.as_ref().map(date_of),
+        mod_date: i.modified.as_ref().map(date_of),
     }
 }
 
@@ -321,7 +445,8 @@ fn check_reload(bytes: &[u8], pages: &[GenPage], info: &Option<GenInfo>, cached:
                     if !opt_prim_eq(&page.vp, &gp.vp, &res) { bad.push(("vp".to_string(), format!("page {}: {:?} vs {:?}", i, page.vp, gp.vp))); }
                     // operations
                     match page.contents.as_ref() {
-                        None => bad.push(("contents-missing".to_string(), format!("page {} has no /Contents", i))),
+                        // no /Contents at all is the empty operation sequence
+                        None => if !gp.ops.is_empty() { bad.push(("contents-missing".to_string(), format!("page {} has no /Contents but {} operations were built", i, gp.ops.len()))) },
                         Some(c) => match c.operations(&res) {
                             Ok(ops) => {
                                 let got = format!("{:?}", ops);
@@ -333,7 +458,7 @@ fn check_reload(bytes: &[u8], pages: &[GenPage], info: &Option<GenInfo>, cached:
                     }
                     // resources
                     match page.resources() {
-                        Err(e) => bad.push(("resources-missing".to_string(), format!("page {}: {}", i, e))),
+                        Err(e) => if !gp.fonts.is_empty() || !gp.gs.is_empty() { bad.push(("resources-missing".to_string(), format!("page {}: {}", i, e))) },
                         Ok(rs) => {
                             let mut fnames: Vec<String> = rs.fonts.keys().map(|k| k.as_str().to_string()).collect();
                             fnames.sort();
@@ -381,7 +506,9 @@ fn check_reload(bytes: &[u8], pages: &[GenPage], info: &Option<GenInfo>, cached:
                     (Some(got), Some(w)) => {
                         let t = got.trapped.as_ref().map(|t| match t { Trapped::True => 0u8, Trapped::False => 1, Trapped::Unknown => 2 });
                         if s(&got.title) != w.title || s(&got.author) != w.author || s(&got.subject) != w.subject || s(&got.keywords) != w.keywords
-                            || s(&got.creator) != w.creator || s(&got.producer) != w.producer || t != w.trapped || got.creation_date.is_some() || got.mod_date.is_some() {
+                            || s(&got.creator) != w.creator || s(&got.producer) != w.producer || t != w.trapped
+                            || format!("{:?}", got.creation_date) != format!("{:?}", w.created.as_ref().map(date_of))
+                            || format!("{:?}", got.mod_date) != format!("{:?}", w.modified.as_ref().map(date_of)) {
                             bad.push(("info".to_string(), format!("information dictionary differs: {:?} vs {:?}", got, w)));
                         }
                     }
@@ -568,46 +695,136 @@ fn impl_answer(bytes: &[u8], st: &Structure) -> (String, String) {
 struct Case {
     pages: Vec<GenPage>,
     info: Option<GenInfo>,
+    /// cache mode of the builder's storage
     cached: bool,
+    /// cache mode of the reload (independent of the builder's)
+    reload_cached: bool,
 }
 
 fn gen_case(rng: &mut Rng) -> Case {
-    let n = match rng.below(10) {
-        0 => 0,
-        1..=6 => 1 + rng.usize(4),
-        7..=8 => 5 + rng.usize(12),
-        _ => 20 + rng.usize(60),
+    let n = match rng.below(20) {
+        0..=1 => 0,
+        2..=12 => 1 + rng.usize(4),
+        13..=16 => 5 + rng.usize(12),
+        17..=18 => 20 + rng.usize(60),
+        // around the widths of a one-byte kid count / object number
+        _ => *rng.pick(&[84usize, 85, 86, 127, 128, 255, 256, 257]),
     };
     let pages = (0..n).map(|_| gen_page(rng)).collect();
-    Case { pages, info: if rng.chance(2, 3) { Some(gen_info(rng)) } else { None }, cached: rng.chance(1, 2) }
+    Case { pages, info: if rng.chance(2, 3) { Some(gen_info(rng)) } else { None }, cached: rng.chance(1, 2), reload_cached: rng.chance(1, 2) }
 }
 
-fn run_case(c: &Case, name: &str, replay: Value, st: &mut Stream, o_reload: &mut Oracle, o_struct: &mut Oracle, reqs: &mut Vec<String>, imps: &mut Vec<String>) {
+const PAD_KEY: &str = "XPad";
+
+/// the case with `k` bytes of padding: in the title of the info dictionary if there is one (the info
+/// object is the last one before the cross-reference stream), else in a string entry of the first page
+fn padded(c: &Case, k: usize) -> Case {
+    let pad = vec![b'x'; k];
+    let mut pages = c.pages.clone();
+    let mut info = c.info.clone();
+    match info.as_mut() {
+        Some(i) => i.title = Some(pad),
+        None => {
+            if let Some(p) = pages.first_mut() {
+                p.other.retain(|(key, _)| key != PAD_KEY);
+                p.other.push((PAD_KEY.to_string(), PVal::Str(pad)));
+            }
+        }
+    }
+    Case { pages, info, cached: c.cached, reload_cached: c.reload_cached }
+}
+
+/// Pad the case until its cross-reference stream starts exactly at `target` (every byte of padding moves
+/// it by one, except where a length gains a digit: hence the loop). `None`: the document is too large
+/// already, or has nothing to pad.
+fn steer(c: &Case, target: usize) -> Option<Case> {
+    if c.info.is_none() && c.pages.is_empty() {
+        return None;
+    }
+    let mut k = 0usize;
+    for _ in 0..8 {
+        let pc = padded(c, k);
+        let bytes = build(&pc.pages, &pc.info, pc.cached).ok()?;
+        let x = last_startxref(&bytes).ok()? as usize;
+        if x == target {
+            return Some(pc);
+        }
+        if x > target {
+            if x - target > k {
+                return None;
+            }
+            k -= x - target;
+        } else {
+            k += target - x;
+        }
+    }
+    None
+}
+
+/// a document small enough to be padded up to `target`
+fn gen_case_below(rng: &mut Rng, target: usize, want_info: bool) -> Case {
+    let n = if target < 1000 {
+        0
+    } else if target < 100_000 {
+        rng.usize(30)
+    } else {
+        1 + rng.usize(3)
+    };
+    let mut pages: Vec<GenPage> = (0..n).map(|_| gen_page(rng)).collect();
+    for p in pages.iter_mut() {
+        if p.ops.len() > 40 {
+            p.ops.truncate(40);
+        }
+    }
+    if !want_info && pages.is_empty() {
+        pages.push(gen_page(rng));
+    }
+    let info = if want_info {
+        let mut i = gen_info(rng);
+        if target < 1000 {
+            i = GenInfo { trapped: i.trapped, ..Default::default() };
+        }
+        Some(i)
+    } else {
+        None
+    };
+    Case { pages, info, cached: rng.chance(1, 2), reload_cached: rng.chance(1, 2) }
+}
+
+fn run_case(c: &Case, name: &str, replay: Value, st: &mut Stream, o_reload: &mut Oracle, o_struct: &mut Oracle, reqs: &mut Vec<String>, imps: &mut Vec<String>) -> Option<usize> {
     let key = format!("{} pages={} info={} cached={}", name, c.pages.len(), c.info.is_some(), c.cached);
-    o_reload.case(&format!("{}{:?}", key, replay.get("case")), !c.pages.is_empty(), || json!({"pages": c.pages.len(), "info": c.info.is_some()}));
-    o_struct.case(&format!("{}{:?}", key, replay.get("case")), !c.pages.is_empty(), || json!({"pages": c.pages.len()}));
-    o_reload.count(&format!("pages={}", match c.pages.len() { 0 => "0", 1 => "1", 2..=4 => "2-4", 5..=16 => "5-16", _ => "17+" }));
+    o_reload.case(&format!("{}{:?}{:?}", key, replay.get("case"), replay.get("target")), !c.pages.is_empty(), || json!({"pages": c.pages.len(), "info": c.info.is_some()}));
+    o_struct.case(&format!("{}{:?}{:?}", key, replay.get("case"), replay.get("target")), !c.pages.is_empty(), || json!({"pages": c.pages.len()}));
+    o_reload.count(&format!("pages={}", match c.pages.len() { 0 => "0", 1 => "1", 2..=4 => "2-4", 5..=16 => "5-16", 17..=83 => "17-83", 84..=254 => "84-254", _ => "255+" }));
     o_reload.count(&format!("info={}", c.info.is_some()));
-    o_reload.count(&format!("cached={}", c.cached));
+    o_reload.count(&format!("cached={}/{}", c.cached, c.reload_cached));
     for p in &c.pages {
-        o_reload.count(&format!("ops={}", match p.ops.len() { 0 => "0", 1..=5 => "1-5", _ => "6+" }));
+        o_reload.count(&format!("ops={}", match p.ops.len() { 0 => "0", 1..=5 => "1-5", 6..=99 => "6-99", _ => "100+" }));
         o_reload.count(&format!("fonts={}", p.fonts.len()));
         o_reload.count(&format!("gs={}", p.gs.len()));
         o_reload.count(&format!("other={}", p.other.len()));
-        o_reload.count(&format!("rotate={}", p.rotate));
+        o_reload.count(&format!("rotate={}", match p.rotate {
+            0 | 90 | 180 | 270 => "ordinary",
+            r if r % 90 == 0 && r < 0 => "negative multiple of 90",
+            r if r % 90 == 0 => "multiple of 90 >= 360",
+            _ => "no multiple of 90",
+        }));
         o_reload.count(&format!("boxes={}{}{}", p.media.is_some() as u8, p.crop.is_some() as u8, p.trim.is_some() as u8));
+        for b in [p.media, p.crop, p.trim].iter().flatten() {
+            o_reload.count(&format!("box={}", if b[0] > b[2] || b[1] > b[3] { "reversed" } else if b[0] == b[2] || b[1] == b[3] { "degenerate" } else if b.iter().any(|x| *x < 0.0) { "negative" } else if b.iter().any(|x| x.abs() >= 1e6) { "huge" } else if b.iter().any(|x| x.fract() != 0.0) { "fractional" } else { "plain" }));
+        }
     }
     let bytes = match build(&c.pages, &c.info, c.cached) {
         Ok(b) => b,
         Err(e) => {
             o_reload.fail("build-failed", &format!("PdfBuilder::build fails on a valid page list: {}", e), replay);
-            return;
+            return None;
         }
     };
     let mut rp = replay.clone();
     rp["file_hex"] = json!(crate::driver::hex(&bytes[..bytes.len().min(20000)]));
     let mut seen = BTreeSet::new();
-    for (sig, what) in check_reload(&bytes, &c.pages, &c.info, c.cached) {
+    for (sig, what) in check_reload(&bytes, &c.pages, &c.info, c.reload_cached) {
         if seen.insert(sig.clone()) {
             o_reload.fail(&sig, &what, rp.clone());
         }
@@ -619,7 +836,10 @@ fn run_case(c: &Case, name: &str, replay: Value, st: &mut Stream, o_reload: &mut
             o_struct.fail(&sig, &what, rp.clone());
         }
     }
+    let mut xpos = None;
     if let Some(stc) = stc {
+        xpos = Some(stc.ap.xpos as usize);
+        o_struct.count(&format!("xref-offset={}", match stc.ap.xpos { 0..=254 => "<255", 255 => "255", 256 => "256", 257 => "257", 258..=65534 => "258-65534", 65535 => "65535", 65536 => "65536", 65537 => "65537", 65538..=16777214 => "65538-2^24-2", 16777215 => "2^24-1", 16777216 => "2^24", 16777217 => "2^24+1", _ => ">2^24+1" }));
         if !stc.ap.objs.is_empty() {
             let (layout, ans) = impl_answer(&bytes, &stc);
             reqs.push(format!("c10.build {} {} {} {}", if c.cached { 1 } else { 0 }, c.pages.len(), if c.info.is_some() { 1 } else { 0 }, layout));
@@ -627,10 +847,133 @@ fn run_case(c: &Case, name: &str, replay: Value, st: &mut Stream, o_reload: &mut
             st.count(&format!("w={}", stc.ap.xref.as_ref().map(|s| format!("{:?}", s.w)).unwrap_or_default()));
         }
     }
+    xpos
 }
 
 fn blank_page() -> GenPage {
     GenPage { ops: vec![], media: Some([0.0, 0.0, 612.0, 792.0]), crop: None, trim: None, rotate: 0, other: vec![], metadata: None, lgi: None, vp: None, fonts: vec![], gs: vec![] }
+}
+
+/// the targets at which the width of the offset column steps
+fn steer_targets(thorough: bool) -> Vec<usize> {
+    let mut t = vec![255, 256, 257, 65535, 65536, 65537];
+    if thorough {
+        t.extend(180..=400);
+        t.extend(65436..=65636);
+        t.extend([16777215, 16777216, 16777217]);
+    }
+    t.sort();
+    t.dedup();
+    t
+}
+
+/// `XRefTable::write_stream` on tables with chosen fields: the width decision and the row bytes
+fn table_streams(driver: &Driver, seed: u64, thorough: bool) -> (Stream, Stream) {
+    use pdf::xref::{XRef, XRefTable};
+    let real = |entries: &[XRef]| -> String {
+        let r = catch_unwind(AssertUnwindSafe(|| {
+            let mut t = XRefTable::new(0);
+            for e in entries {
+                t.push(*e);
+            }
+            match t.write_stream(t.len()) {
+                Ok(s) => {
+                    let data = s.data(&NoResolve).map(|d| d.to_vec()).unwrap_or_default();
+                    format!("ok {}.{} {}", s.info.info.w[1], s.info.info.w[2], crate::driver::hex(&data))
+                }
+                Err(_) => "err".to_string(),
+            }
+        }));
+        r.unwrap_or_else(|_| "panic".into())
+    };
+    let show = |e: &XRef| match *e {
+        XRef::Free { next_obj_nr, gen_nr } => format!("f.{}.{}", next_obj_nr, gen_nr),
+        XRef::Raw { pos, gen_nr } => format!("r.{}.{}", pos, gen_nr),
+        XRef::Stream { stream_id, index } => format!("s.{}.{}", stream_id, index),
+        XRef::Promised => "P".into(),
+        XRef::Invalid => "I".into(),
+    };
+    // --- byte_len alone
+    let mut bl = Stream::new("c10.bytelen", true);
+    bl.exhaustive = true;
+    let mut ns: Vec<u64> = (0..if thorough { 70_000u64 } else { 1_300 }).collect();
+    for k in 1..8u32 {
+        let p = 1u64 << (8 * k);
+        for d in -2i64..=2 {
+            ns.push((p as i64 + d) as u64);
+        }
+    }
+    ns.extend([u64::MAX, u64::MAX - 1, 1u64 << 63, (1u64 << 63) - 1]);
+    let mut rng = Rng::derive(seed, "c10.bytelen", 0);
+    for _ in 0..if thorough { 30_000 } else { 600 } {
+        let bits = rng.below(64);
+        ns.push(rng.next() >> bits);
+    }
+    let mut reqs = vec![];
+    let mut imps = vec![];
+    for n in &ns {
+        // as the largest first field (an offset) and as the largest second field (a generation)
+        for which in 0..2 {
+            let e = if which == 0 { XRef::Raw { pos: *n as usize, gen_nr: 0 } } else { XRef::Raw { pos: 0, gen_nr: *n } };
+            let r = real(&[e]);
+            let f: Vec<&str> = r.split(' ').collect();
+            let w = if f.len() == 3 { f[1].split('.').nth(which).unwrap_or("?").to_string() } else { r.clone() };
+            // the table always holds `free 0 65535`: the second column is never narrower than 2
+            reqs.push(format!("c10.bytelen {}", if which == 1 { (*n).max(65535) } else { *n }));
+            imps.push(w);
+        }
+    }
+    let resp = driver.ask(&reqs);
+    for ((rq, m), i) in reqs.iter().zip(resp.iter()).zip(imps.iter()) {
+        bl.case(rq, m, i, true);
+    }
+    // --- whole tables
+    let mut tb = Stream::new("c10.table", true);
+    let bounds: Vec<u64> = {
+        let mut b = vec![0u64, 1, 2];
+        for k in 1..8u32 {
+            let p = 1u64 << (8 * k);
+            b.extend([p - 1, p, p + 1]);
+        }
+        b.extend([u64::MAX, 1u64 << 63]);
+        b
+    };
+    let mut reqs = vec![];
+    let mut imps = vec![];
+    let ncases = if thorough { 40_000 } else { 1_500 };
+    for case in 0..ncases {
+        let mut rng = Rng::derive(seed, "c10.table", case);
+        let n = 1 + rng.usize(6);
+        let val = |rng: &mut Rng| -> u64 {
+            match rng.below(3) {
+                0 => *rng.pick(&bounds),
+                1 => rng.below(70000),
+                _ => { let bits = rng.below(64); rng.next() >> bits }
+            }
+        };
+        let mut es = vec![];
+        for _ in 0..n {
+            let (a, b) = (val(&mut rng), val(&mut rng));
+            es.push(match rng.below(20) {
+                0..=5 => XRef::Free { next_obj_nr: a, gen_nr: b },
+                6..=12 => XRef::Raw { pos: a as usize, gen_nr: b },
+                13..=17 => XRef::Stream { stream_id: a, index: b as usize },
+                18 => XRef::Invalid,
+                _ => if rng.chance(1, 4) { XRef::Promised } else { XRef::Invalid },
+            });
+        }
+        let mut all = vec![XRef::Free { next_obj_nr: 0, gen_nr: 0xffff }];
+        all.extend(es.iter().cloned());
+        reqs.push(format!("c10.table {}", all.iter().map(show).collect::<Vec<_>>().join(",")));
+        let r = real(&es);
+        tb.count(&format!("w={}", r.split(' ').nth(1).unwrap_or(&r)));
+        imps.push(r);
+    }
+    let resp = driver.ask(&reqs);
+    for ((rq, m), i) in reqs.iter().zip(resp.iter()).zip(imps.iter()) {
+        tb.case(rq, m, i, true);
+    }
+    (bl, tb)
 }
 
 pub fn run(driver: &Driver, seed: u64, thorough: bool, replay: Option<&Value>) -> Report {
@@ -640,31 +983,90 @@ pub fn run(driver: &Driver, seed: u64, thorough: bool, replay: Option<&Value>) -
     let mut o_struct = Oracle::new("c10.structure");
     let mut reqs = vec![];
     let mut imps = vec![];
+    let rstream = replay.and_then(|r| r["stream"].as_str()).map(|s| s.to_string());
+    let wanted = |name: &str| rstream.as_deref().map(|s| s == name).unwrap_or(true);
     let (from, to) = match replay {
         Some(r) if r["stream"].as_str() == Some("c10.build") => {
             let c = r["case"].as_u64().unwrap_or(0);
             (c, c + 1)
         }
-        _ => (0, if thorough { 20_000 } else { 700 }),
+        _ => (0, if thorough { 20_000 } else { 900 }),
     };
     let seed = replay.and_then(|r| r["seed"].as_u64()).unwrap_or(seed);
     // deterministic witnesses first
-    if replay.map(|r| r["stream"].as_str() == Some("c10.witness")).unwrap_or(true) {
+    if wanted("c10.witness") {
         let mut rng = Rng::derive(99, "c10.witness", 0);
         let rich = gen_page(&mut rng);
+        let blank = |n: usize| -> Vec<GenPage> { (0..n).map(|_| blank_page()).collect() };
+        let rot = |r: i32| GenPage { rotate: r, ..blank_page() };
         let witnesses: Vec<(&str, Case)> = vec![
-            ("no-pages", Case { pages: vec![], info: None, cached: false }),
-            ("one-blank-page", Case { pages: vec![blank_page()], info: None, cached: true }),
-            ("info-only", Case { pages: vec![], info: Some(GenInfo { title: Some(b"T".to_vec()), trapped: Some(2), ..Default::default() }), cached: false }),
-            ("rich-page", Case { pages: vec![rich.clone(), blank_page(), rich], info: Some(gen_info(&mut rng)), cached: true }),
-            ("300-pages", Case { pages: (0..300).map(|_| blank_page()).collect(), info: None, cached: false }),
-            ("integer-values", Case { pages: vec![GenPage { other: vec![("UserUnit".into(), PVal::Int(7)), ("Z".into(), PVal::Int(-3))], vp: Some(PVal::Int(12)), ..blank_page() }], info: None, cached: false }),
+            ("no-pages", Case { pages: vec![], info: None, cached: false, reload_cached: true }),
+            ("one-blank-page", Case { pages: vec![blank_page()], info: None, cached: true, reload_cached: false }),
+            ("info-only", Case { pages: vec![], info: Some(GenInfo { title: Some(b"T".to_vec()), trapped: Some(2), ..Default::default() }), cached: false, reload_cached: false }),
+            ("rich-page", Case { pages: vec![rich.clone(), blank_page(), rich], info: Some(gen_info(&mut rng)), cached: true, reload_cached: true }),
+            ("255-pages", Case { pages: blank(255), info: None, cached: false, reload_cached: false }),
+            ("256-pages", Case { pages: blank(256), info: Some(GenInfo::default()), cached: false, reload_cached: true }),
+            ("257-pages", Case { pages: blank(257), info: None, cached: true, reload_cached: false }),
+            ("300-pages", Case { pages: blank(300), info: None, cached: false, reload_cached: false }),
+            ("integer-values", Case { pages: vec![GenPage { other: vec![("UserUnit".into(), PVal::Int(7)), ("Z".into(), PVal::Int(-3))], vp: Some(PVal::Int(12)), ..blank_page() }], info: None, cached: false, reload_cached: false }),
+            ("rotations", Case { pages: vec![rot(360), rot(450), rot(-90), rot(-360), rot(-450), rot(720), rot(2147483610), rot(-2147483610), rot(i32::MAX), rot(i32::MIN), rot(45)], info: None, cached: false, reload_cached: false }),
+            ("boxes", Case { pages: vec![
+                GenPage { media: Some([612.0, 792.0, 0.0, 0.0]), crop: Some([-10.5, -20.25, 0.1, 0.001]), trim: Some([0.0, 0.0, 0.0, 0.0]), ..blank_page() },
+                GenPage { media: Some([-1e12, 1e-7, 4294967296.0, 16777217.0]), crop: None, trim: Some([255.0, 256.0, 65535.0, 65536.0]), ..blank_page() },
+                GenPage { media: None, crop: Some([2147483647.0, -2147483648.0, 3.3333333, -0.0]), ..blank_page() },
+            ], info: None, cached: false, reload_cached: true }),
+            ("long-content", Case { pages: vec![GenPage { ops: {
+                let mut ops = vec![Op::BeginText, Op::TextDraw { text: PdfString::new(vec![b'y'; 70_000].as_slice().into()) }, Op::EndText];
+                for i in 0..6000 { ops.push(Op::MoveTo { p: Point { x: i as f32, y: 0.5 } }); ops.push(Op::LineTo { p: Point { x: 1.0, y: i as f32 } }); }
+                ops.push(Op::Stroke);
+                ops
+            }, ..blank_page() }, blank_page()], info: None, cached: true, reload_cached: false }),
+            ("empty-info", Case { pages: vec![blank_page()], info: Some(GenInfo::default()), cached: false, reload_cached: false }),
         ];
         for (name, c) in &witnesses {
             run_case(c, name, json!({"stream": "c10.witness", "witness": name}), &mut st, &mut o_reload, &mut o_struct, &mut reqs, &mut imps);
         }
     }
-    if replay.map(|r| r["stream"].as_str() != Some("c10.witness")).unwrap_or(true) {
+    // documents whose cross-reference stream starts exactly where the offset column gains a byte
+    if wanted("c10.steer") {
+        let targets: Vec<usize> = match replay {
+            Some(r) => vec![r["target"].as_u64().unwrap_or(256) as usize],
+            None => steer_targets(thorough),
+        };
+        let variants: Vec<(u64, bool)> = match replay {
+            Some(r) => vec![(r["case"].as_u64().unwrap_or(0), r["info"].as_bool().unwrap_or(true))],
+            None => vec![(0, true), (1, true), (0, false), (1, false)],
+        };
+        for target in targets {
+            if target > 1 << 20 && !thorough && replay.is_none() {
+                continue;
+            }
+            for (case, want_info) in &variants {
+                // a 16 MB document once per variant of the info dictionary is enough
+                if target > 1 << 20 && *case > 0 {
+                    continue;
+                }
+                let mut rng = Rng::derive(seed, "c10.steer", (target as u64) * 4 + case * 2 + *want_info as u64);
+                let mut steered = None;
+                for _ in 0..6 {
+                    let base = gen_case_below(&mut rng, target, *want_info);
+                    if let Some(c) = steer(&base, target) {
+                        steered = Some(c);
+                        break;
+                    }
+                }
+                match steered {
+                    Some(c) => {
+                        let got = run_case(&c, "steered", json!({"stream": "c10.steer", "seed": seed, "case": case, "info": want_info, "target": target}), &mut st, &mut o_reload, &mut o_struct, &mut reqs, &mut imps);
+                        st.count(if got == Some(target) { "steered=hit" } else { "steered=missed" });
+                    }
+                    // nothing can be padded below the size of the smallest document of that kind
+                    None => st.count(&format!("steered=unreachable(info={},target{})", want_info, if target < 1000 { "<1000" } else { ">=1000" })),
+                }
+            }
+        }
+    }
+    if wanted("c10.build") {
         for case in from..to {
             let mut rng = Rng::derive(seed, "c10.build", case);
             let c = gen_case(&mut rng);
@@ -677,6 +1079,11 @@ pub fn run(driver: &Driver, seed: u64, thorough: bool, replay: Option<&Value>) -
         st.case(rq, m, i, f.get(2).map(|n| *n != "0").unwrap_or(false));
     }
     rep.streams.push(st);
+    if replay.is_none() {
+        let (bl, tb) = table_streams(driver, seed, thorough);
+        rep.streams.push(bl);
+        rep.streams.push(tb);
+    }
     rep.oracles.push(o_reload);
     rep.oracles.push(o_struct);
     rep
